@@ -167,20 +167,7 @@ func (pt *PolyformTexture) equal(other *PolyformTexture) bool {
 		}
 	}
 
-	if pt.Sampler == other.Sampler {
-		return true
-	} else if pt.Sampler == nil || other.Sampler == nil {
-		return false
-	}
-
-	if pt.Sampler.MagFilter != other.Sampler.MagFilter ||
-		pt.Sampler.MinFilter != other.Sampler.MinFilter ||
-		pt.Sampler.WrapS != other.Sampler.WrapS ||
-		pt.Sampler.WrapT != other.Sampler.WrapT {
-		return false
-	}
-
-	return true
+	return pt.Sampler.equal(other.Sampler)
 }
 
 func (pt *PolyformNormal) equal(other *PolyformNormal) bool {
